@@ -1,6 +1,6 @@
 /-
   C16 — property theorems only.  Persistence storages round-trip, purge completely, isolate, and
-  generate valid, deterministic, distinct annotation names.
+  generate annotation names that are stable, and — under the stated guards only — valid and distinct.
 
   All theorems quantify over ALL handler ids `k : List Char`, ALL records / essences, ALL bodies
   and ALL (well-formed, i.e. unique-key) patches already accumulated in the cycle; `env.sfx`
@@ -520,17 +520,6 @@ theorem isolation_touch_ann (env : Env) (c : AnnCfg) (body patch0 patch' value :
     · obtain ⟨n, hn, rfl⟩ := List.mem_map.1 hp; exact hq n hn
     · simp at hp; subst hp; exact hm)
 
-/-- what another handler `k'` reads depends only on its own annotation names (and the marking bit):
-    two objects that agree there give the same `fetch`. Together with `isolation_store_ann` /
-    `isolation_purge_ann`: if the names of `k` and `k'` are disjoint, `k'` is not disturbed. -/
-theorem isolation_fetch (env : Env) (c : AnnCfg) (b1 b2 : J) (k' : Str) (hd : isDRS b1 = isDRS b2)
-    (h : ∀ n ∈ annNames env c.pfx c.v1 b1 k', resolve? b1 (annPath n) = resolve? b2 (annPath n)) :
-    annFetch env c b1 k' = annFetch env c b2 k' := by
-  unfold annFetch
-  have e : annNames env c.pfx c.v1 b2 k' = annNames env c.pfx c.v1 b1 k' := by simp only [annNames, hd]
-  rw [e]
-  exact fetchNames_congr env b1 b2 _ h
-
 /-- name-level composition: storing `k` does not change what a handler `k'` with disjoint
     *names* (none of them the marker) reads. The step from distinct *ids* to disjoint names is
     `isolation_ids_short` / `isolation_ids_long` below (for `v1 = False`). -/
@@ -552,24 +541,13 @@ theorem isolation_other_handler (env : Env) (c : AnnCfg) (body patch0 patch' : J
         t2.keepsWf (t1.keepsWf hw)⟩
   have hd : isDRS (mergePatch body patch') = isDRS (mergePatch body patch0) := by
     rw [isDRS_merge hstab.2 hstab.1, isDRS_merge hw hs]
-  apply isolation_fetch env c _ _ k' hd
+  apply annFetch_congr env c _ _ k' hd
   intro n' hn'
   have hn'' : n' ∈ annNames env c.pfx c.v1 body k' := by
     simpa only [annNames, isDRS_merge hstab.2 hstab.1] using hn'
   exact isolation_store_ann env c body patch0 patch' k r hw h (annPath n')
     (fun n hn => diverge_annPath (hdisj n hn n' hn''))
     (diverge_annPath (hmark n' hn''))
-
-/-- names under two different slash-free prefixes are different: records of an operator with another
-    prefix are never touched (take `q := annPath` of its name in the isolation theorems). -/
-theorem other_prefix_disjoint (p p' n n' : Str) (hp : ∀ c ∈ p, c ≠ '/') (hp' : ∀ c ∈ p', c ≠ '/')
-    (hne : p ≠ p') : p ++ '/' :: n ≠ p' ++ '/' :: n' :=
-  fun e => hne (slash_split_unique p p' n n' hp hp' e).1
-
-/-- every generated name starts with `<prefix>/`: user annotations, which do not, are never touched -/
-theorem own_names_under_prefix (p : Str) (hp : p ≠ []) (v1 : Bool) (sfx : Str → Str) (k : Str) :
-    ∀ n ∈ makeKeys p v1 sfx k, ∃ name, n = p ++ '/' :: name :=
-  own_names_of_makeKeys p hp v1 sfx k
 
 /-- the same for `purge` -/
 theorem isolation_other_handler_purge (env : Env) (c : AnnCfg) (body patch0 patch' : J) (k k' : Str)
@@ -604,10 +582,18 @@ theorem foreign_annotation_untouched (env : Env) (c : AnnCfg) (hp : c.pfx ≠ []
     fun k pp h => isolation_purge_ann env c body patch0 pp k hw h _ (hnames k),
     fun value pt hv h => isolation_touch_ann env c body patch0 pt value hv hw h _ (hnames _) hmark⟩
 
-/-- in particular every annotation `<p'>/<n'>` of an operator with another plain prefix -/
-theorem other_prefix_untouched (p p' n' : Str) (hp : PlainPrefix p) (hp' : PlainPrefix p') (hne : p ≠ p') :
-    ∀ x, p' ++ '/' :: n' ≠ p ++ '/' :: x :=
-  fun x e => hne (slash_split_unique p' p n' x hp'.2 hp.2 e).1.symm
+/-- **Records of operators using another prefix**: no store, purge or touch under prefix `c.pfx`
+    changes any annotation `<p'>/<n'>` of a different plain prefix `p'`. -/
+theorem other_prefix_untouched (env : Env) (c : AnnCfg) (hp : PlainPrefix c.pfx) (p' n' : Str)
+    (hp' : PlainPrefix p') (hne : p' ≠ c.pfx) (body patch0 : J) (hw : wf patch0 = true) :
+    (∀ k r ps, annStore env c body patch0 k r = .ok ps →
+      resolve? (mergePatch body ps) (annPath (p' ++ '/' :: n')) = resolve? (mergePatch body patch0) (annPath (p' ++ '/' :: n'))) ∧
+    (∀ k pp, annPurge env c body patch0 k = .ok pp →
+      resolve? (mergePatch body pp) (annPath (p' ++ '/' :: n')) = resolve? (mergePatch body patch0) (annPath (p' ++ '/' :: n'))) ∧
+    (∀ value pt, wf value = true → annTouch env c body patch0 value = .ok pt →
+      resolve? (mergePatch body pt) (annPath (p' ++ '/' :: n')) = resolve? (mergePatch body patch0) (annPath (p' ++ '/' :: n'))) :=
+  foreign_annotation_untouched env c hp.1 body patch0 hw (p' ++ '/' :: n')
+    (fun x e => hne (slash_split_unique p' c.pfx n' x hp'.2 hp.2 e).1)
 
 /-! ## `clear` (what the diff sees): own annotations go, everything else stays -/
 
